@@ -1,16 +1,154 @@
 /-
-  C07 — property theorems (placeholder while the slice is being built).
+  C07 — property theorems.  `Poly` is an exact commutative ring with evaluation,
+  composition and calculus.  Only statements of the property, non-vacuity
+  examples and the audit live here; the proofs' work is in `ALV.Lemmas.C07*`.
+
+  Reading guide.  `MPoly K` is the model of `Poly._data` (insertion-ordered
+  association list), `WF p` its representation invariant (keys distinct, no
+  stored zero), `toLaurent p : K[T;T⁻¹]` the Laurent polynomial it denotes.
+  All theorems hold for every field `K`, every support (finite subset of ℤ),
+  every insertion order — no bound anywhere.
 -/
-import ALV.Model.C07
-import ALV.Spec.C07
+import ALV.Lemmas.C07Laurent
 import ALV.Common.Audit
+
+set_option linter.unusedSectionVars false
+
+open LaurentPolynomial
 
 namespace ALV.Props.C07
 open ALV.C07
-variable {α : Type} [Add α] [Mul α] [Sub α] [Neg α] [Div α] [OfNat α 0] [OfNat α 1] [DecidableEq α]
+variable {K : Type} [Field K] [DecidableEq K]
+
+/-! ## 1. ring structure -/
+
+/-- **C07.1a** `+` is the sum of `K[T;T⁻¹]`. -/
+theorem toLaurent_add {p q : MPoly K} (hp : WF p) (hq : WF q) :
+    toLaurent (add p q) = toLaurent p + toLaurent q := ALV.C07.toLaurent_add hp.1 hq.1
+
+/-- **C07.1b** unary `-` is the negation of `K[T;T⁻¹]`. -/
+theorem toLaurent_neg {p : MPoly K} (hp : WF p) : toLaurent (neg p) = -toLaurent p :=
+  ALV.C07.toLaurent_neg hp.1
+
+/-- **C07.1c** binary `-`. -/
+theorem toLaurent_sub {p q : MPoly K} (hp : WF p) (hq : WF q) :
+    toLaurent (sub p q) = toLaurent p - toLaurent q := ALV.C07.toLaurent_sub hp.1 hq.1
+
+/-- **C07.1d** `*` is the (convolution) product of `K[T;T⁻¹]` — for arbitrary term lists. -/
+theorem toLaurent_mul (p q : MPoly K) : toLaurent (mul p q) = toLaurent p * toLaurent q :=
+  ALV.C07.toLaurent_mul p q
+
+/-- **C07.1e** `p ** n` is the n-th power of `K[T;T⁻¹]`, for every natural `n` (all four
+branches of `__pow__`: `n = 0`, empty, one term, repeated product). -/
+theorem toLaurent_pow (p : MPoly K) (n : ℕ) : toLaurent (pow p (n : ℤ)) = toLaurent p ^ n :=
+  ALV.C07.toLaurent_pow p n
+
+/-- **C07.1f** a monomial to a negative power is its inverse power in the Laurent ring. -/
+theorem toLaurent_pow_monomial (k : ℤ) (v : K) (n : ℤ) :
+    toLaurent (pow [(k, v)] n) = AddMonoidAlgebra.single (k * n) (v ^ n) :=
+  ALV.C07.toLaurent_pow_mono k v n
+
+/-- **C07.1g** constants and the monomial `x`. -/
+theorem toLaurent_const_X (c : K) :
+    toLaurent (ofScalar c) = C c ∧ toLaurent (X : MPoly K) = T 1 ∧ toLaurent ([] : MPoly K) = 0 :=
+  ⟨toLaurent_ofScalar c, toLaurent_X, rfl⟩
+
+/-- **C07.2** no zero coefficient is ever stored and keys stay distinct: every operation returns
+a well-formed Poly (constructors and `+ - *` unconditionally, whatever their arguments). -/
+theorem wf_operations (p q : MPoly K) (l : List (Int × K)) (cs : List K) (c : K) :
+    WF (mk l) ∧ WF (ofList cs) ∧ WF (ofScalar c) ∧ WF (add p q) ∧ WF (sub p q) ∧ WF (neg p) ∧
+      WF (mul p q) ∧ WF (compose p q) :=
+  ⟨wf_mk l, wf_ofList cs, wf_ofScalar c, wf_add p q, wf_sub p q, wf_neg p, wf_mul p q, wf_compose p q⟩
+
+theorem wf_pow {p : MPoly K} (hp : WF p) (n : ℤ) : WF (pow p n) := ALV.C07.wf_pow hp n
+
+theorem wf_diff {p : MPoly K} (hp : WF p) (n : ℕ) : WF (diff p n) := ALV.C07.wf_diff p n hp.1
+
+theorem wf_integrate {p ip : MPoly K} (h : integrate p = .ok ip) : WF ip := ALV.C07.wf_integrate h
+
+theorem wf_truediv {p q r : MPoly K} {c : K} :
+    (divScalar p c = .ok r → WF r) ∧ (divPoly p q = .ok r → WF r) :=
+  ⟨ALV.C07.wf_divScalar, ALV.C07.wf_divPoly⟩
+
+theorem wf_setitem {p : MPoly K} (hp : WF p) (k : ℤ) (c : K) : WF (setItem p k c) :=
+  ALV.C07.wf_setItem hp k c
+
+/-- **C07.3** `==` decides equality of the denoted Laurent polynomials (so it is independent of
+the insertion order). -/
+theorem eq_iff {p q : MPoly K} (hp : WF p) (hq : WF q) :
+    eq p q = true ↔ toLaurent p = toLaurent q := eq_iff_toLaurent hp hq
+
+/-- **C07.3b** a well-formed Poly denotes zero iff it is the empty Poly. -/
+theorem toLaurent_eq_zero_iff {p : MPoly K} (hp : WF p) : toLaurent p = 0 ↔ p = [] :=
+  ⟨eq_nil_of_toLaurent_eq_zero hp, fun h => h ▸ rfl⟩
+
+/-! ### the laws of the property text, as the code's `==` sees them -/
+
+theorem add_comm {p q : MPoly K} (hp : WF p) (hq : WF q) : eq (add p q) (add q p) = true := by
+  rw [eq_iff (wf_add _ _) (wf_add _ _), toLaurent_add hp hq, toLaurent_add hq hp, _root_.add_comm]
+
+theorem add_assoc {p q r : MPoly K} (hp : WF p) (hq : WF q) (hr : WF r) :
+    eq (add (add p q) r) (add p (add q r)) = true := by
+  rw [eq_iff (wf_add _ _) (wf_add _ _), toLaurent_add (wf_add _ _) hr, toLaurent_add hp hq,
+    toLaurent_add hp (wf_add _ _), toLaurent_add hq hr, _root_.add_assoc]
+
+theorem mul_comm (p q : MPoly K) : eq (mul p q) (mul q p) = true := by
+  rw [eq_iff (wf_mul _ _) (wf_mul _ _), toLaurent_mul, toLaurent_mul, _root_.mul_comm]
+
+theorem mul_assoc (p q r : MPoly K) : eq (mul (mul p q) r) (mul p (mul q r)) = true := by
+  rw [eq_iff (wf_mul _ _) (wf_mul _ _)]
+  simp only [toLaurent_mul, _root_.mul_assoc]
+
+theorem left_distrib {p q r : MPoly K} (hq : WF q) (hr : WF r) :
+    eq (mul p (add q r)) (add (mul p q) (mul p r)) = true := by
+  rw [eq_iff (wf_mul _ _) (wf_add _ _), toLaurent_mul, toLaurent_add hq hr,
+    toLaurent_add (wf_mul _ _) (wf_mul _ _), toLaurent_mul, toLaurent_mul, mul_add]
+
+theorem right_distrib {p q r : MPoly K} (hp : WF p) (hq : WF q) :
+    eq (mul (add p q) r) (add (mul p r) (mul q r)) = true := by
+  rw [eq_iff (wf_mul _ _) (wf_add _ _), toLaurent_mul, toLaurent_add hp hq,
+    toLaurent_add (wf_mul _ _) (wf_mul _ _), toLaurent_mul, toLaurent_mul, add_mul]
+
+/-- `p - p` is the empty polynomial (literally `Poly()`: nothing stored). -/
+theorem sub_self_empty {p : MPoly K} (hp : WF p) : sub p p = [] := by
+  apply eq_nil_of_toLaurent_eq_zero (wf_sub p p)
+  rw [toLaurent_sub hp hp, sub_self]
+
+theorem add_zero_mul_one {p : MPoly K} (hp : WF p) :
+    eq (add p []) p = true ∧ eq (add [] p) p = true ∧
+      eq (mul p (ofScalar 1)) p = true ∧ eq (mul (ofScalar 1) p) p = true := by
+  refine ⟨?_, ?_, ?_, ?_⟩
+  · rw [eq_iff (wf_add _ _) hp, toLaurent_add hp wf_nil]; simp
+  · rw [eq_iff (wf_add _ _) hp, toLaurent_add wf_nil hp]; simp
+  · rw [eq_iff (wf_mul _ _) hp, toLaurent_mul, toLaurent_ofScalar]; simp
+  · rw [eq_iff (wf_mul _ _) hp, toLaurent_mul, toLaurent_ofScalar]; simp
+
+/-- `p ** n` equals the n-fold product `reduce(mul, [p]*n, Poly(1))`. -/
+theorem pow_nfold {p : MPoly K} (hp : WF p) (n : ℕ) :
+    eq (pow p (n : ℤ)) ((List.replicate n p).foldl mul (ofScalar 1)) = true := by
+  rw [eq_iff (wf_pow hp _) (wf_foldl_mul _ (wf_ofScalar 1)), toLaurent_pow, toLaurent_foldl_mul,
+    toLaurent_ofScalar]
+  simp
+
+theorem pow_succ {p : MPoly K} (hp : WF p) (n : ℕ) :
+    eq (pow p ((n : ℤ) + 1)) (mul (pow p (n : ℤ)) p) = true := by
+  have : ((n : ℤ) + 1) = ((n + 1 : ℕ) : ℤ) := by simp
+  rw [this, eq_iff (wf_pow hp _) (wf_mul _ _), toLaurent_pow, toLaurent_mul, toLaurent_pow,
+    _root_.pow_succ]
+
+/-! ## 5. comparison -/
 
 /-- `p != q` is the negation of `p == q` -/
-theorem ne_eq_not_eq (p q : MPoly α) : ne p q = !eq p q := rfl
+theorem ne_eq_not_eq (p q : MPoly K) : ne p q = !eq p q := rfl
+
+/-! ## non-vacuity -/
+
+example : WF ([(-1, (1:ℚ) / 2), (2, 3)] : MPoly ℚ) := by
+  constructor
+  · decide
+  · intro kv h
+    simp at h
+    rcases h with h | h <;> subst h <;> norm_num
 
 end ALV.Props.C07
 
